@@ -153,9 +153,13 @@ func (g *gen) slice(depth int) *V {
 	n := g.r.Intn(4)
 	v := &V{K: "slice", Elem: shape}
 	for i := 0; i < n; i++ {
-		if i == 0 {
+		switch {
+		case shape.K == "ptr" && g.r.Chance(1, 5):
+			// a nil pointer among the elements (same element type)
+			v.Elems = append(v.Elems, &V{K: "nilptr", Elem: g.cloneFresh(shape.Elem)})
+		case i == 0:
 			v.Elems = append(v.Elems, shape)
-		} else {
+		default:
 			v.Elems = append(v.Elems, g.cloneFresh(shape))
 		}
 	}
